@@ -10,7 +10,7 @@ Require Import String.
 Require Import Arith Lia List Bool ZArith QArith Qcanon.
 From TK Require Import Mat_Sums Mat_Core Mat_Qc Mat_EigSelect EigSelect Mat_EigSelect_Tie
                        Mds_Model Mds_Spec Mds_Exec Mds_Proof Mds_Proof_Solver Mds_Proof_Qc
-                       Mds_Proof_Isomap Dijkstra_Spec Spectral_KyFan Mds_Proof_Optimal.
+                       Mds_Proof_Isomap Dijkstra_Spec Spectral_KyFan Mds_Proof_Optimal Mds_Proof_Rank.
 Import ListNotations.
 Local Open Scope nat_scope.
 
@@ -552,3 +552,108 @@ Example Mds_factor_optimal_nonvacuous :
   (forall c, c < 1 -> (exo_s c * exo_s c)%F = exo_lam (2 - 1 + c)%nat) /\
   meq 1 1 (mmul 2 (mtrans exo_Q) exo_Q) mI.
 Proof. exact exo_ok. Qed.
+
+(* 19. distances: the exact deficit, and "classical MDS never overestimates a distance" (PSD).
+       No rank hypothesis: for ANY zero-diagonal table, any full oracle answer, any d <= N
+         |y_i - y_j|^2 = D2_ij - sum over the DISCARDED eigenpairs of lam_t (V_it - V_jt)^2 ;
+       Mds_recovers_euclidean_partial is the special case where the discarded lam_t vanish. *)
+Theorem Mds_distance_deficit :
+  forall (F : Type) (Fo : FieldOps F) (Ff : IsField F) (N d : nat) (V : mat F)
+         (Lam s : vec F) (dist : mat F),
+    two <> 0%F -> d <= N ->
+    full_contract N (mds_matrix N dist) V Lam ->
+    meq N N (mmul N V (mtrans V)) mI ->
+    (forall c, c < d -> (s c * s c)%F = Lam (N - d + c)%nat) ->
+    (forall i, i < N -> dist i i = 0%F) ->
+    let Y := scale_cols (select_cols N V (N - d, d)) s in
+    forall i j, i < N -> j < N -> i <= j ->
+      sqdist d Y i j =
+        (dist i j * dist i j
+         - sumn (N - d) (fun t => Lam t * ((V i t - V j t) * (V i t - V j t))))%F.
+Proof. exact @mds_distance_deficit. Qed.
+Print Assumptions Mds_distance_deficit.
+
+Theorem Mds_never_overestimates :
+  forall (F : Type) (Fo : FieldOps F) (Ff : IsField F) (Fle : OrderedField F) (N d : nat)
+         (V : mat F) (Lam s : vec F) (dist : mat F),
+    two <> 0%F -> d <= N ->
+    full_contract N (mds_matrix N dist) V Lam ->
+    meq N N (mmul N V (mtrans V)) mI ->
+    (forall t, t < N - d -> fle 0%F (Lam t)) ->
+    (forall c, c < d -> (s c * s c)%F = Lam (N - d + c)%nat) ->
+    (forall i, i < N -> dist i i = 0%F) ->
+    let Y := scale_cols (select_cols N V (N - d, d)) s in
+    forall i j, i < N -> j < N -> i <= j ->
+      fle (sqdist d Y i j) (dist i j * dist i j)%F.
+Proof. exact @mds_never_overestimates. Qed.
+Print Assumptions Mds_never_overestimates.
+
+Example Mds_distance_deficit_nonvacuous :
+  @two Qc _ <> 0%F /\
+  full_contract 4 (mds_matrix 4 ex4_dist) (mtrans ex4_V) ex4_Lam /\
+  meq 4 4 (mmul 4 (mtrans ex4_V) (mtrans (mtrans ex4_V))) mI /\
+  (forall t, t < 4 - 1 -> fle 0%F (ex4_Lam t)) /\
+  (forall c, c < 1 -> (ex_s c * ex_s c)%F = ex4_Lam (4 - 1 + c)%nat) /\
+  (forall i, i < 4 -> ex4_dist i i = 0%F).
+Proof.
+  destruct Mds_recovers_euclidean_nonvacuous as [H1 [H2 [H3 [H4 [H5 _]]]]].
+  split; [exact H1|]. split; [exact H2|]. split; [exact H3|].
+  split.
+  { intros t Ht. rewrite (H4 t Ht). apply fle_refl. }
+  split; [exact (proj2 Mds_factor_nonvacuous)|exact H5].
+Qed.
+
+(* 20. THE RANK ARGUMENT (no rank theory assumed): a homogeneous system with more unknowns than
+       equations has a non-trivial solution (Gaussian elimination, any field with decidable
+       equality); hence among r+1 mutually orthogonal vectors of F^r one has squared norm 0;
+       hence, B = Z Z^T with Z an N x r configuration: all eigenvalues are >= 0 and the N - r
+       smallest VANISH, for any ascending orthonormal eigen-answer. *)
+Theorem Mds_underdetermined :
+  forall (F : Type) (Fo : FieldOps F) (Ff : IsField F),
+    (forall x y : F, {x = y} + {x <> y}) ->
+    forall (m : nat) (A : nat -> nat -> F),
+    exists c : nat -> F,
+      (exists k, k < S m /\ c k <> 0%F) /\
+      (forall i, i < m -> sumn (S m) (fun k => (A i k * c k)%F) = 0%F).
+Proof. exact @underdetermined. Qed.
+Print Assumptions Mds_underdetermined.
+
+Theorem Mds_gram_small_eigenvalues_vanish :
+  forall (n r : nat) (Z V B : mat Qc) (lam : vec Qc),
+    (forall i i', i < n -> i' < n -> B i i' = sumn r (fun j => (Z i j * Z i' j)%F)) ->
+    meq n n (mmul n (mtrans V) V) mI ->
+    meq n n (mmul n B V) (mmul n V (mdiag lam)) ->
+    ascending n lam ->
+    (forall t, t < n -> (0 <= lam t)%Qc) /\
+    (forall t, t < n - r -> lam t = Q2Qc 0).
+Proof. exact gram_small_eigenvalues_vanish. Qed.
+Print Assumptions Mds_gram_small_eigenvalues_vanish.
+
+(* 21. THE CONSEQUENCE CLAUSE OF C05, at full strength (this replaces the hypothesis "all but
+       the selected eigenvalues are zero" of theorem 9 by the geometric one): N points with r
+       coordinates, r <= target_dimension d <= N, dist their Euclidean distances, (V, Lam) ANY
+       full ascending orthonormal eigen-answer for the matrix MDS hands to the solver, s the
+       sqrt answers for max(lambda, 0): the embedding reproduces EVERY pairwise distance. *)
+Theorem Mds_recovers_euclidean :
+  forall (N r d : nat) (X V : mat Qc) (Lam s : vec Qc) (dist : mat Qc),
+    N <> 0 -> r <= d -> d <= N ->
+    (forall i j, i < N -> j < N -> i <= j -> (dist i j * dist i j)%Qc = sqdist r X i j) ->
+    (forall i, i < N -> dist i i = Q2Qc 0) ->
+    full_contract N (mds_matrix N dist) V Lam ->
+    meq N N (mmul N V (mtrans V)) mI ->
+    ascending N Lam ->
+    (forall c, c < d -> (s c * s c)%Qc = qmax0 (Lam (N - d + c)%nat)) ->
+    let Y := scale_cols (select_cols N V (N - d, d)) s in
+    forall i j, i < N -> j < N -> i <= j -> sqdist d Y i j = (dist i j * dist i j)%Qc.
+Proof. exact mds_recovers_euclidean_Qc. Qed.
+Print Assumptions Mds_recovers_euclidean.
+
+Example Mds_recovers_euclidean_full_nonvacuous :
+  4 <> 0 /\ 1 <= 1 /\ 1 <= 4 /\
+  (forall i j, i < 4 -> j < 4 -> i <= j -> (exr_dist i j * exr_dist i j)%Qc = sqdist 1 exr_X i j) /\
+  (forall i, i < 4 -> exr_dist i i = Q2Qc 0) /\
+  full_contract 4 (mds_matrix 4 exr_dist) exr_V exr_Lam /\
+  meq 4 4 (mmul 4 exr_V (mtrans exr_V)) mI /\
+  ascending 4 exr_Lam /\
+  (forall c, c < 1 -> (exr_s c * exr_s c)%Qc = qmax0 (exr_Lam (4 - 1 + c)%nat)).
+Proof. exact exr_ok. Qed.
